@@ -4,6 +4,7 @@ import (
 	"fmt"
 	"go/token"
 	"go/types"
+	"os"
 	"strings"
 
 	"golang.org/x/tools/go/ssa"
@@ -196,6 +197,7 @@ func runC15(c *Ctx) {
 			}
 		})
 		c.check(hasRet, "R15.3", construct+" (returns)", p.pos(w.OutChans.Pos()), "has a return path", "the forwarding goroutine never returns")
+		c.forwarderExitArm("R15.3", w.OutChans)
 		cons2 := fmt.Sprintf("%s: hand-over of a channel registration", fname(w.Registrar))
 		n := 0
 		for _, u := range usesOfKind(p.uses(r.FReg), "send", "select-send") {
@@ -283,4 +285,207 @@ func runC15(c *Ctx) {
 		wv := reachFromBlock(arm.Body, blocking, atEnd)
 		c.check(wv == nil, "R15.8", fmt.Sprintf("%s: context-cancelled arm", fname(r.FnLoop)), c.ipos(arm.Body.Instrs[0]), "returns at once", "when its context is cancelled the loop first waits for something (the write lock, a socket write, a channel): a writer stuck on a stalled peer holds that lock, so the loop never returns and its cleanup (cancelling handlers, failing calls, closing the socket) never runs")
 	}
+}
+
+// forwarderExitArm: once the exit-signal case of the forwarder's reflect.Select fires with ok=false
+// (the signal channel was closed), every path returns before the next select. The case index is the
+// constant position of the SelectCase whose Chan is reflect.ValueOf(exit signal); the arm is the
+// true edge of `chosen == index`. A forwarder that keeps selecting (to drain producers) lives as long as
+// some handler's channel stays open — the goroutine and the connection it references are retained.
+// When the index is not a constant compared with ==, nothing is claimed beyond the weaker checks above.
+func (c *Ctx) forwarderExitArm(rule string, fwd *ssa.Function) {
+	p, r := c.P, c.R
+	var sel *ssa.Call
+	exitIdx := int64(-1)
+	allInstrs(fwd, func(in ssa.Instruction) {
+		ci, ok := in.(*ssa.Call)
+		if !ok {
+			return
+		}
+		switch calleeName(ci) {
+		case "reflect.Select":
+			sel = ci
+		case "reflect.ValueOf":
+			if !isLoadOf(stripConv(ci.Common().Args[0]), r.FExiting) {
+				return
+			}
+			for _, use := range transitiveUses(ci) {
+				st, ok := use.(*ssa.Store)
+				if !ok {
+					continue
+				}
+				fa, ok := st.Addr.(*ssa.FieldAddr)
+				if !ok || !isNamed(fa.X.Type(), "reflect", "SelectCase") {
+					continue
+				}
+				if ia, ok := fa.X.(*ssa.IndexAddr); ok {
+					if k, isK := constInt(ia.Index); isK {
+						exitIdx = k
+					}
+				}
+				// a composite literal built in a local and copied into its slot
+				if al, ok := fa.X.(*ssa.Alloc); ok {
+					for _, r1 := range *al.Referrers() {
+						ld, ok := r1.(*ssa.UnOp)
+						if !ok || ld.Op != token.MUL || ld.Referrers() == nil {
+							continue
+						}
+						for _, r2 := range *ld.Referrers() {
+							if st2, ok := r2.(*ssa.Store); ok && st2.Val == ssa.Value(ld) {
+								if ia, ok := st2.Addr.(*ssa.IndexAddr); ok {
+									if k, isK := constInt(ia.Index); isK {
+										exitIdx = k
+									}
+								}
+							}
+						}
+					}
+				}
+			}
+		}
+	})
+	if sel == nil || exitIdx < 0 {
+		return
+	}
+	var chosen, okv ssa.Value
+	for _, ref := range *sel.Referrers() {
+		if ex, isEx := ref.(*ssa.Extract); isEx {
+			switch ex.Index {
+			case 0:
+				chosen = ex
+			case 2:
+				okv = ex
+			}
+		}
+	}
+	if chosen == nil {
+		return
+	}
+	construct := fmt.Sprintf("%s: exit-signal case returns", fname(fwd))
+	// the situation "case exitIdx fired, ok == false" as path facts: every comparison of the chosen index
+	// with a constant is decided; a comparison with something that is not a constant cannot be decided
+	// here, and then nothing is claimed
+	truthOf := map[ssa.Value]bool{}
+	if okv != nil {
+		truthOf[okv] = false
+	}
+	n := 0
+	decidable := true
+	allInstrs(fwd, func(in ssa.Instruction) {
+		bo, ok := in.(*ssa.BinOp)
+		if !ok {
+			return
+		}
+		x, y, op := bo.X, bo.Y, bo.Op
+		if y == chosen {
+			x, y, op = y, x, flip(op)
+		}
+		if x != chosen {
+			return
+		}
+		switch op {
+		case token.EQL, token.NEQ, token.LSS, token.LEQ, token.GTR, token.GEQ:
+		default:
+			return // arithmetic on the index (chosen - internal): not a test
+		}
+		k, isK := constInt(y)
+		if !isK {
+			decidable = false
+			return
+		}
+		switch op {
+		case token.EQL:
+			truthOf[bo] = exitIdx == k
+			if exitIdx == k {
+				n++
+			}
+		case token.NEQ:
+			truthOf[bo] = exitIdx != k
+		case token.LSS:
+			truthOf[bo] = exitIdx < k
+		case token.LEQ:
+			truthOf[bo] = exitIdx <= k
+		case token.GTR:
+			truthOf[bo] = exitIdx > k
+		case token.GEQ:
+			truthOf[bo] = exitIdx >= k
+		}
+	})
+	if !decidable || n == 0 {
+		return
+	}
+	phiBusy := map[*ssa.Phi]bool{}
+	var decide func(v ssa.Value) int
+	decide = func(v ssa.Value) int {
+		if t, ok := truthOf[v]; ok {
+			if t {
+				return 1
+			}
+			return 2
+		}
+		if u, ok := v.(*ssa.UnOp); ok && u.Op == token.NOT {
+			switch decide(u.X) {
+			case 1:
+				return 2
+			case 2:
+				return 1
+			}
+		}
+		if ph, ok := v.(*ssa.Phi); ok {
+			// a short-circuit condition kept as a value: the incoming edges that the decided tests allow
+			// must agree
+			if phiBusy[ph] {
+				return 0
+			}
+			phiBusy[ph] = true
+			defer delete(phiBusy, ph)
+			res := 0
+			for i, pred := range ph.Block().Preds {
+				if iff, isIf := pred.Instrs[len(pred.Instrs)-1].(*ssa.If); isIf && len(pred.Succs) == 2 && pred.Succs[0] != pred.Succs[1] {
+					d := decide(iff.Cond)
+					if (d == 1 && pred.Succs[0] != ph.Block()) || (d == 2 && pred.Succs[1] != ph.Block()) {
+						continue // this edge is not taken in the situation considered
+					}
+				}
+				var e int
+				if k := constKind(ph.Edges[i]); k == 1 || k == 2 {
+					e = k
+				} else {
+					e = decide(ph.Edges[i])
+				}
+				if e == 0 || (res != 0 && res != e) {
+					return 0
+				}
+				res = e
+			}
+			return res
+		}
+		return 0
+	}
+	s := &ipSearch{p: p, flat: true, seen: map[string]bool{}, factSeen: map[string][]*factSet{},
+		target: func(in ssa.Instruction) bool { return in == ssa.Instruction(sel) },
+		avoid:  isReturn,
+		edgeOK: func(from *ssa.BasicBlock, k int) bool {
+			iff, ok := from.Instrs[len(from.Instrs)-1].(*ssa.If)
+			if !ok {
+				return true
+			}
+			if os.Getenv("JRP_DEBUG") == "exitarm" {
+				fmt.Fprintf(os.Stderr, "  edge from block %d cond %s decide=%d k=%d\n", from.Index, iff.Cond.Name()+"="+iff.Cond.String(), decide(iff.Cond), k)
+			}
+			switch decide(iff.Cond) {
+			case 1:
+				return k == 0
+			case 2:
+				return k == 1
+			}
+			return true
+		}}
+	again := s.scanF(sel.Block(), instrIndex(sel)+1, nil, nil)
+	if os.Getenv("JRP_DEBUG") == "exitarm" {
+		fmt.Fprintf(os.Stderr, "exitarm: idx=%d n=%d decidable=%v again=%v found=%v truth=%d\n", exitIdx, n, decidable, again, s.found, len(truthOf))
+	}
+	c.check(!again, rule, construct, c.ipos(sel), "on the closed exit signal every path returns before the next select",
+		"after the exit signal fired (channel closed) the forwarding goroutine can go back to its select: it then lives until every handler has closed its channel — a streaming handler that just returns on cancellation keeps the goroutine and the whole connection object alive for ever")
+	_ = n
 }
